@@ -406,13 +406,18 @@ impl<'a> FmtVisitor<'a> {
     }
 
     fn format_foreign_item(&mut self, item: &ast::ForeignItem) {
-        let rewrite = item.rewrite(&self.get_context(), self.shape());
         let hi = item.span.hi();
         let span = if item.attrs.is_empty() {
             item.span
         } else {
             mk_sp(item.attrs[0].span.lo(), hi)
         };
+        if contains_skip(&item.attrs) {
+            self.push_skipped_with_span(item.attrs.as_slice(), span, span);
+            self.last_pos = hi;
+            return;
+        }
+        let rewrite = item.rewrite(&self.get_context(), self.shape());
         self.push_rewrite(span, rewrite);
         self.last_pos = hi;
     }
